@@ -180,11 +180,6 @@ func (r *runner) runChain(seed uint64) {
 					rc := replayCase{ChainSeed: seed, Pos: i, Tamper: name, Rehash: rehash, NewState: fo.newState, Kind: "tamper"}
 					r.c.Count(fmt.Sprintf("%d/%d/%s/%s/%v", seed, i, be, name, rehash), true)
 					switch {
-					case pan != "" && nilPricePanic(t):
-						r.c.Violation(nilPriceClass, fmt.Sprintf("chain %d block %d (%s) tamper %s: SanityCheckNewHeight panics: %s", seed, i, ctx.Version, name, pan), rc, false)
-						if d := rawDigest(fo.mem); d != pre {
-							r.c.Violation("reject-not-pure:db:"+be+":"+key, "panic left the database changed", rc, false)
-						}
 					case pan != "":
 						r.c.Violation("tamper-panic:"+be+":"+key, fmt.Sprintf("chain %d block %d tamper %s: panic %s", seed, i, name, pan), rc, false)
 						fols[fi] = r.rebuild(fo, valid)
@@ -315,11 +310,4 @@ func carvedOut(b *Built, name string) bool {
 	}
 	s := rawSig(b.Block.Transactions[idx])
 	return len(s) == 1 && s[0].IsZero()
-}
-
-// a block of the >= 0.13.4 format without L2GasPrice / L1DataGasPrice: core.post0134Hash dereferences both
-const nilPriceClass = "sanity-panic:nil-gas-price-in-0.13.4-format"
-
-func nilPricePanic(b *Built) bool {
-	return vge(b.Block.ProtocolVersion, 0, 13, 4) && (b.Block.L2GasPrice == nil || b.Block.L1DataGasPrice == nil)
 }
